@@ -1,10 +1,16 @@
 // go2coq — translator from a small, documented subset of Go to Gallina (Coq 8.16), used to
 // regenerate the C07/C12 validator models from hostd's source on every check run.
 //
-//	go run tools/go2coq/main.go tools/go2coq/tables.go tools/go2coq/expr.go tools/go2coq/stmt.go [-root DIR]
+//	go run tools/go2coq/main.go tools/go2coq/tables.go tools/go2coq/expr.go tools/go2coq/stmt.go [-root DIR] [-only revision,formation,mdm]
 //
-// reads  $VERIF_REPO/rhp/contracts.go, $VERIF_REPO/rhp/v2/contracts.go, $VERIF_REPO/rhp/v3/contracts.go
-// writes DIR/coq/Revision/gen/RevisionGen.v and DIR/coq/Formation/gen/FormationGen.v (DIR = /verif).
+// reads  $VERIF_REPO/rhp/contracts.go, $VERIF_REPO/rhp/v2/contracts.go, $VERIF_REPO/rhp/v3/contracts.go,
+//
+//	$VERIF_REPO/rhp/v3/execute.go (the six programData accessors)
+//
+// writes DIR/coq/Revision/gen/RevisionGen.v, DIR/coq/Formation/gen/FormationGen.v and
+//
+//	DIR/coq/MDM/gen/MDMGen.v (DIR = /verif); a file is only rewritten when its text changes, and is
+//	left as it is when its sources are outside the subset (exit code 2).
 //
 // SUPPORTED SUBSET (anything else is a hard error "go2coq: ERROR: file:line:col: ...", exit 2)
 //
@@ -35,6 +41,11 @@
 //     contractUnlockConditions in the file must be the expected one),
 //     `x.Cmp(y) OP 0` (only in this shape), `errors.New("..")` / `fmt.Errorf("..", args..)` as the
 //     error of a `return` (-> Err EInvalid; the arguments are still evaluated, they can panic).
+//   - MDM output only (methods with a value receiver of type programData, which becomes the first
+//     parameter): `uint64(len(pd))`, `pd[lo:hi]` / `pd[lo:]` on the program data (Go's slice bounds
+//     check, Panic), `(*[rhp2.SectorSize]byte)(s)`, `*(*T)(s)` for T in types.Hash256 / Specifier /
+//     Signature, `binary.LittleEndian.Uint64(s)` (each Panic when s is too short), the constant
+//     rhp2.SectorSize, `var k types.UnlockKey; k.Algorithm = ..; k.Key = ..`, `nil` next to an error.
 //   - evaluation order: every sub-expression that can panic is bound (`do tmp <- ..`) in Go's
 //     left-to-right order in front of the statement that contains it; `case` conditions are
 //     evaluated one after the other, never hoisted.
@@ -81,11 +92,14 @@ type output struct {
 	path      string // relative to the verif root
 	requires  []string
 	formation bool // FormationGen may use void_addr / cmul64_o / settings2 / ptable
+	mdm       bool // MDMGen: the programData vocabulary of coq/MDM
+	group     string
 	targets   []target
 }
 
 var outputs = []output{
 	{
+		group:    "revision",
 		path:     "coq/Revision/gen/RevisionGen.v",
 		requires: []string{"From HostdBase Require Import Base.", "From HostdRevision Require Import Model GenPrelude."},
 		targets: []target{{file: "rhp/contracts.go", funcs: []string{
@@ -93,6 +107,7 @@ var outputs = []output{
 			"ValidateRevision", "ValidateProgramRevision", "ValidatePaymentRevision"}}},
 	},
 	{
+		group:     "formation",
 		path:      "coq/Formation/gen/FormationGen.v",
 		requires:  []string{"From HostdBase Require Import Base.", "From HostdRevision Require Import Model GenPrelude.", "From HostdFormation Require Import Model."},
 		formation: true,
@@ -101,12 +116,21 @@ var outputs = []output{
 			{file: "rhp/v3/contracts.go", module: "V3", funcs: []string{"validateContractRenewal", "renewalBaseCosts"}},
 		},
 	},
+	{
+		group:    "mdm",
+		path:     "coq/MDM/gen/MDMGen.v",
+		requires: []string{"From HostdBase Require Import Base.", "From HostdMDM Require Import Model GenPrelude."},
+		mdm:      true,
+		targets: []target{{file: "rhp/v3/execute.go", funcs: []string{
+			"programData.Uint64", "programData.Hash", "programData.Signature", "programData.Sector",
+			"programData.Bytes", "programData.UnlockKey"}}},
+	},
 }
 
 // the imports a translated file may use, by the name they are referred to
 var expectedImports = map[string]string{
 	"types": "go.sia.tech/core/types", "rhp2": "go.sia.tech/core/rhp/v2", "rhp3": "go.sia.tech/core/rhp/v3",
-	"math": "math", "errors": "errors", "fmt": "fmt",
+	"math": "math", "errors": "errors", "fmt": "fmt", "binary": "encoding/binary",
 }
 
 type gofile struct {
@@ -131,8 +155,14 @@ func parseFile(path string) *gofile {
 		g.imports[name] = p
 	}
 	for _, d := range f.Decls {
-		if fd, ok := d.(*ast.FuncDecl); ok && fd.Recv == nil {
-			g.funcs[fd.Name.Name] = fd
+		if fd, ok := d.(*ast.FuncDecl); ok {
+			if fd.Recv == nil {
+				g.funcs[fd.Name.Name] = fd
+			} else if len(fd.Recv.List) == 1 {
+				if id, ok := fd.Recv.List[0].Type.(*ast.Ident); ok { // value receiver of a named type
+					g.funcs[id.Name+"."+fd.Name.Name] = fd
+				}
+			}
 		}
 	}
 	return g
@@ -181,7 +211,7 @@ func (u *unit) translate(name string, at ast.Node) *gendef {
 		fail(at, "recursive function %s", name)
 	}
 	u.active[name] = true
-	d := translateFunc(u, fd)
+	d := translateFunc(u, fd, name)
 	delete(u.active, name)
 	u.done[name] = d
 	u.order = append(u.order, d)
@@ -196,7 +226,7 @@ func generate(repo string, o *output) (string, []string) {
 	for _, t := range o.targets {
 		b.WriteString(" " + t.file)
 	}
-	b.WriteString("\n\n" + tableComment() + " *)\n")
+	b.WriteString("\n\n" + strings.ReplaceAll(strings.ReplaceAll(tableComment(), "(*", "( *"), "*)", "* )") + " *)\n")
 	for _, r := range o.requires {
 		b.WriteString(r + "\n")
 	}
@@ -238,6 +268,7 @@ func generate(repo string, o *output) (string, []string) {
 
 func main() {
 	root := flag.String("root", "", "verif root to write under (default: two levels above this tool)")
+	only := flag.String("only", "", "comma-separated output groups to regenerate (revision, formation, mdm); default all")
 	flag.Parse()
 	repo := os.Getenv("VERIF_REPO")
 	if repo == "" {
@@ -258,6 +289,9 @@ func main() {
 	failed := false
 	for i := range outputs {
 		o := &outputs[i]
+		if *only != "" && !strings.Contains(","+*only+",", ","+o.group+",") {
+			continue
+		}
 		func() {
 			defer func() {
 				if r := recover(); r != nil {
